@@ -64,9 +64,11 @@ theorem step_inv_le {s : Redb} (h : Inv s) (op : Op) : Inv (step s op).1 ∧ Le 
     simp only [step]; exact ⟨h3, by rw [h1]; exact Mem.put_le _ _ _⟩
   | batch es =>
     simp only [step]
-    rcases batch_spec h es with ⟨_, h2⟩ | ⟨_, h2, h3, h4⟩
+    rcases batch_spec h es with ⟨_, h2⟩ | ⟨T, hT, _, h2, h3⟩
     · rw [h2]; exact ⟨h, Le.refl _⟩
-    · exact ⟨h3, by rw [h2]; exact le_insertAll_of_ok h4⟩
+    · refine ⟨h3, ?_⟩
+      rw [h2]
+      exact Mem.le_congr_right (fun k => (Mem.seqRun_lookup (fun _ => rfl) hT k).symm) (Mem.seqRun_le hT)
   | reopen => exact ⟨inv_reopen h.sorted, Le.refl _⟩
   | get k => exact ⟨h, Le.refl _⟩
   | getVer k => exact ⟨h, Le.refl _⟩
@@ -75,22 +77,14 @@ theorem step_inv_le {s : Redb} (h : Inv s) (op : Op) : Inv (step s op).1 ∧ Le 
   | prepare => exact ⟨h, Le.refl _⟩
   | commit => exact ⟨h, Le.refl _⟩
 
-/-- all batches of a request list have pairwise distinct keys -/
-def DistinctBatch : Op → Prop
-  | .batch es => (es.map (·.1)).Nodup
-  | _ => True
-
-instance (op : Op) : Decidable (DistinctBatch op) := by
-  cases op <;> simp only [DistinctBatch] <;> infer_instance
-
-/-- one step: same output and same table as the memory store (batches with distinct keys) -/
-theorem step_sim {s : Redb} (h : Inv s) (op : Op) (hd : DistinctBatch op) :
+/-- one step: same output and same table as the memory store -/
+theorem step_sim {s : Redb} (h : Inv s) (op : Op) :
     (step s op).1.tab = (Mem.step s.tab op).1 ∧ (step s op).2 = (Mem.step s.tab op).2 := by
   cases op with
   | put k x => obtain ⟨h1, h2, _⟩ := put_sim h k x; simp [step, Mem.step, h1, h2]
   | putV k v x => obtain ⟨h1, h2, _⟩ := putV_sim h k v x; simp [step, Mem.step, h1, h2]
   | del k => obtain ⟨h1, h2, _⟩ := put_sim h k []; simp [step, Mem.step, h1, h2]
-  | batch es => obtain ⟨h1, h2⟩ := batch_sim h es hd; simp [step, Mem.step, h1, h2]
+  | batch es => obtain ⟨h1, h2⟩ := batch_sim h es; simp [step, Mem.step, h1, h2]
   | reopen => exact ⟨rfl, rfl⟩
   | get k => exact ⟨rfl, rfl⟩
   | getVer k => simp [step, Mem.step, h.cache k]
@@ -112,7 +106,7 @@ theorem insertAll_lookup_congr {α : Type} (c c' : AL α) (es : List (Key × α)
 
 theorem batchStep_congr {c c' : AL Nat} (h : ∀ k, lookup c k = lookup c' k) (a : Acc) (e : Key × Rec) :
     batchStep c a e = batchStep c' a e := by
-  unfold batchStep; rw [h e.1]
+  unfold batchStep olookup; rw [h e.1]
 
 theorem step_cacheEq {s s' : Redb} (h : CacheEq s s') (op : Op) :
     CacheEq (step s op).1 (step s' op).1 ∧ (step s op).2 = (step s' op).2 := by
@@ -247,10 +241,9 @@ theorem del_agree {t : Tab} {s : KVSpec} (h : Agree t s) (k : Key) :
 
 theorem batch_agree {t : Tab} {s : KVSpec} (h : Agree t s) (es : List (Key × Rec)) :
     Agree (batch t es).1 (KVSpec.step s (.batch es) (.res (batch t es).2)) := by
-  unfold batch
-  split
-  · exact agree_insertAll h es
-  · exact h
+  rcases batch_spec t es with ⟨_, h2⟩ | ⟨_, _, h2, _⟩
+  · rw [h2]; exact h
+  · rw [h2]; exact agree_insertAll h es
 
 /-- the memory store and the ledger of its own accepted writes stay in agreement -/
 theorem step_agree {t : Tab} {s : KVSpec} (h : Agree t s) (op : Op) :
